@@ -2,13 +2,13 @@
 import json
 
 
-def literal_text(par, kids, x, variant, depth=0):
+def literal_text(par, kids, x, variant, depth=0, wrap="%di64"):
     """text of the children block of node x (0 = root): '{ a => { ... }, b, }'"""
     items = []
     for i in kids[x]:
-        expr = "{ lg(%d); %di64 }" % (i, i)
+        expr = "{ lg(%d); %s }" % (i, wrap % i)
         if kids[i]:
-            items.append("%s => %s" % (expr, literal_text(par, kids, i, variant + i, depth + 1)))
+            items.append("%s => %s" % (expr, literal_text(par, kids, i, variant + i, depth + 1, wrap)))
         else:
             # leaf spellings: `x` or `x => {}`
             items.append(expr + (" => {}" if (variant + i) % 3 == 0 else ""))
@@ -56,6 +56,40 @@ def gen_cases(cases):
                 ek[str(-(100 + j))] = []
             expect.append({"n": n, "form": form, "k": k, "par": par, "kids": ek, "log": [-2, -1] + list(range(1, k + 1)),
                            "count": k + 1 + pre, "text": inv})
+    # the same literals with a payload type that has a destructor (every third shape, two root forms)
+    for ci, c in enumerate(cases):
+        if ci % 3 != 1:
+            continue
+        k, par = c["k"], c["par"]
+        kids = {0: c["kids"][0]}
+        for i in range(1, k + 1):
+            kids[i] = c["kids"][i]
+        for form in ("value", "id1"):
+            n += 1
+            pre = {"value": 0, "id1": 1}[form]
+            body = ["fn case_%d(out: &mut Vec<Value>) {" % n, "    LOG.with(|l| l.borrow_mut().clear());",
+                    "    let drops_before = drops_total();", "    let mut arena: Arena<P> = Arena::new();"]
+            if form == "value":
+                rootexpr = "{ lg(-1); P(0) }"
+                rootopt = "None"
+            else:
+                body.append("    let root_id = arena.new_node(P(0));")
+                body.append("    root_id.append_value(P(-100), &mut arena);")
+                rootexpr = "{ lg(-1); root_id }"
+                rootopt = "Some(root_id)"
+            lit = literal_text(par, kids, 0, n, 0, "P(%d)")
+            inv = "tree!({ lg(-2); &mut arena }, %s => %s)" % (rootexpr, lit)
+            body.append("    let ret = %s;" % inv)
+            body.append("    report_p(out, %d, \"%s\", arena, ret, %s, drops_before);" % (n, form + "+drop", rootopt))
+            body.append("}")
+            src.append("\n".join(body))
+            calls.append("    case_%d(out);" % n)
+            ek = {str(i): kids[i] for i in range(1, k + 1)}
+            ek["0"] = [-(100 + j) for j in range(pre)] + kids[0]
+            for j in range(pre):
+                ek[str(-(100 + j))] = []
+            expect.append({"n": n, "form": form + "+drop", "k": k, "par": par, "kids": ek, "log": [-2, -1] + list(range(1, k + 1)),
+                           "count": k + 1 + pre, "text": inv, "drops": True})
     src.append("fn run_all(out: &mut Vec<Value>) {\n" + "\n".join(calls) + "\n}")
     return "\n\n".join(src) + "\n", expect
 
@@ -78,6 +112,8 @@ def compare(expect, got):
                 bad.append("%d nodes created, expected %d" % (o["count"], e["count"]))
             if o["ret_payload"] != 0 or not o["ret_parent_none"] or o["ret_is_given_root"] is False:
                 bad.append("returned id is not the root")
+            if e.get("drops") and (o.get("drops_while_alive") != 0 or not o.get("each_dropped_once_with_arena")):
+                bad.append("payload destructors: %s ran while the arena was alive, each-once-with-the-arena=%s" % (o.get("drops_while_alive"), o.get("each_dropped_once_with_arena")))
         for b in bad:
             fs.append({"prop": "C15", "kind": "macro", "detail": "%s: %s" % (e["text"], b), "case": {"invocation": e["text"], "expected": e, "observed": o}})
     return fs
